@@ -267,6 +267,20 @@ class Explorer:
             raise HarnessError('nested explorers are not supported')
         t0 = time.perf_counter()
         stack = [()]
+        # hard stop: the budget is checked between paths; a watchdog interrupts a single path that
+        # runs far beyond it (the exploration is then reported as not exhausted, never as success)
+        import signal
+        import threading
+        watchdog = False
+        if threading.current_thread() is threading.main_thread() and self.max_seconds and self.max_seconds < 10 ** 7:
+            def _alarm(signum, frame):
+                raise BudgetExhausted('watchdog: a single path ran beyond the time budget')
+            try:
+                self._old_alarm = signal.signal(signal.SIGALRM, _alarm)
+                signal.setitimer(signal.ITIMER_REAL, self.max_seconds * 1.5 + 30)
+                watchdog = True
+            except (ValueError, OSError):
+                watchdog = False
         try:
             while stack:
                 if len(self.paths) + self.aborted >= self.max_paths or (
@@ -316,6 +330,9 @@ class Explorer:
             self.pending_left = len(stack)
         finally:
             _CUR = None
+            if watchdog:
+                signal.setitimer(signal.ITIMER_REAL, 0)
+                signal.signal(signal.SIGALRM, self._old_alarm)
         self.wall = time.perf_counter() - t0
         return self.paths
 
